@@ -119,7 +119,7 @@ def build(ctx):
     for n, al in ([(1, 8), (4, 64), (1, big)] if ctx.tier == 'quick' else [(1, 8), (2, 64), (4, 8), (4, 64), (64, 8), (1, big), (4, big)]):
         d = {'KN': str(n), 'ALIGNOF_T': str(al), 'KCACHELINE': kcl}
         inst = 'N=%d,alignof(T)=%s' % (n, al)
-        common = dict(defines=d, inst=inst, timeout=600, object_bits=10, expect=[r'postcondition'])
+        common = dict(defines=d, inst=inst, timeout=1500, object_bits=10, expect=[r'postcondition'])
         for fn in ('SV_isInline', 'SV_rawSize', 'SV_data', 'SV_capacity', 'SV_setSize'):
             units.append(Unit('SmallVector::' + fn[3:], 'cbmc', S, fn, **common))
         acc = ['SV_isInline', 'SV_rawSize', 'SV_data', 'SV_capacity', 'SV_setSize']
